@@ -5,6 +5,8 @@
 #include <eigen3/Eigen/Sparse>
 #include <limits>
 
+#include "utils/verif_hooks.hpp"
+
 namespace coloquinte {
 NetModel::Parameters::Parameters() {
   netModel = NetModelOption::BoundToBound;
@@ -598,6 +600,7 @@ std::vector<float> MatrixCreator::solve(float tolerance, int maxIterations) {
   finalize();
   Eigen::SparseMatrix<float> mat(matSize(), matSize());
   mat.setFromTriplets(mat_.begin(), mat_.end());
+  COLOQUINTE_VERIF_POINT(VERIF_SOLVE_ASSEMBLED, &topo_);
   Eigen::Map<Eigen::Matrix<float, -1, 1> > rhs(rhs_.data(), rhs_.size());
   Eigen::Map<Eigen::Matrix<float, -1, 1> > initial(initial_.data(),
                                                    initial_.size());
@@ -644,10 +647,13 @@ std::vector<float> NetModel::solveWithPenalty(
     const std::vector<float> &netPlacement,
     const std::vector<float> &placementTarget,
     const std::vector<float> &penaltyStrength, const Parameters &params) const {
+  COLOQUINTE_VERIF_SCOPE(VERIF_SOLVE_BEGIN, VERIF_SOLVE_END, this);
   MatrixCreator builder = MatrixCreator::create(
       *this, netPlacement, params.approximationDistance, params.netModel);
+  COLOQUINTE_VERIF_POINT(VERIF_SOLVE_BUILT, this);
   builder.addPenalty(netPlacement, placementTarget, penaltyStrength,
                      params.penaltyCutoffDistance);
+  COLOQUINTE_VERIF_POINT(VERIF_SOLVE_PENALISED, this);
   return builder.solve(params.tolerance, params.maxNbIterations);
 }
 
